@@ -8,6 +8,7 @@ from sfa import flow
 from sfa.model import AnalysisError
 from sfa.model import FuncInfo
 from sfa.model import call_name
+from sfa.model import kwarg
 from sfa.model import norm
 from sfa.model import walk_local
 from sfa import roles
@@ -207,3 +208,70 @@ def loop_iterable_as_key(ctx: Ctx) -> None:
         raise AnalysisError('positive fixture of I.loop-iterable-as-key no longer matches')
     ctx.ok(R, 'bus.<all loops>', None, f'{n_loops} for-loops over a named iterable examined, {hits} use the iterable as a key (fixture matched)',
            key='all-loops', file='static_frame/core')
+
+
+def reader_consumer(ctx: Ctx) -> None:
+    R = 'I.bus-reader-consumer'
+    ctx.rule(R, 'the lazy label generator handed to the store reader and the loop that consumes the reader with next() walk one and the same snapshot: '
+             'the generator iterates what the loop iterates, yields that iteration\'s label, and filters with exactly the test that guards next() in the loop '
+             '(so the n-th Frame read is the n-th placeholder met); and the generator reads no attribute of self that the consuming loop writes '
+             '(a lazily evaluated generator over live state drifts when Frames are loaded / evicted meanwhile)', floor=2)
+    f = ctx.prog.method('Bus', '_update_series_cache_iloc', inherited=False)
+    ex = roles.Expander(f.node)
+    readers = [a for a in walk_local(f.node) if isinstance(a, ast.Assign) and isinstance(a.targets[0], ast.Name) and isinstance(a.value, ast.Call)
+               and call_name(a.value) == 'self._store_reader']
+    ctx.require(len(readers) >= 1, 'Bus._update_series_cache_iloc builds its chunked store reader')
+    rnames = {a.targets[0].id for a in readers}
+    loops = [lp for lp in walk_local(f.node) if isinstance(lp, ast.For) and any(isinstance(c, ast.Call) and call_name(c) == 'next' and c.args and isinstance(c.args[0], ast.Name)
+                                                                                and c.args[0].id in rnames for c in ast.walk(lp))]
+    ctx.require(len(loops) == 1, 'one loop consumes the store reader')
+    lp = loops[0]
+    # what the loop writes on self
+    written = set()
+    for s in ast.walk(lp):
+        tg = s.targets if isinstance(s, ast.Assign) else [s.target] if isinstance(s, ast.AugAssign) else s.targets if isinstance(s, ast.Delete) else []
+        for t in tg:
+            base = t.value if isinstance(t, ast.Subscript) else t
+            if isinstance(base, ast.Attribute) and isinstance(base.value, ast.Name) and base.value.id == 'self':
+                written.add(base.attr)
+    guard = None
+    for n in ast.walk(lp):
+        if isinstance(n, ast.If) and any(isinstance(c, ast.Call) and call_name(c) == 'next' and c.args and isinstance(c.args[0], ast.Name) and c.args[0].id in rnames
+                                         for s in n.body for c in ast.walk(s)):
+            guard = n.test
+    loop_targets = [x.id for x in ast.walk(lp.target) if isinstance(x, ast.Name)]
+    for n_r, a in enumerate(readers):
+        gen = kwarg(a.value, 'labels')
+        key = f'reader#{n_r}'
+        if not isinstance(gen, ast.GeneratorExp) or len(gen.generators) != 1:
+            ctx.bad(R, f, a, f'labels= is `{norm(gen)[:60]}`, not a generator over the consumed snapshot', key=key + ':shape')
+            continue
+        g0 = gen.generators[0]
+        reads = {x.attr for x in ast.walk(gen) if isinstance(x, ast.Attribute) and isinstance(x.value, ast.Name) and x.value.id == 'self'}
+        live = sorted(reads & written)
+        (ctx.ok if not live else ctx.bad)(R, f, gen, 'the generator reads nothing the consuming loop writes' if not live else
+                                          f'the lazy label generator reads self.{live[0]}, which the consuming loop writes while the generator is still being drained: '
+                                          'labels are decided from state that changes under it', key=key + ':live-state')
+        e_gen, e_loop = ex.expand(g0.iter), ex.expand(lp.iter)
+        same_iter = bool(e_gen) and e_gen <= e_loop
+        gen_targets = [x.id for x in ast.walk(g0.target) if isinstance(x, ast.Name)]
+        problems = []
+        if not same_iter:
+            problems.append(f'the generator iterates `{sorted(e_gen)[0][:50]}` while the loop iterates `{sorted(e_loop)[0][:50]}`')
+        if len(gen_targets) != len(loop_targets):
+            problems.append('generator and loop unpack differently')
+        else:
+            ren = dict(zip(gen_targets, loop_targets))
+            import copy
+            tests = []
+            for t in g0.ifs:
+                t2 = copy.deepcopy(t)
+                for x in ast.walk(t2):
+                    if isinstance(x, ast.Name) and x.id in ren:
+                        x.id = ren[x.id]
+                tests.append(norm(t2))
+            if guard is None or tests != [norm(guard)]:
+                problems.append(f'the generator filters with {tests} but next() is guarded by `{norm(guard) if guard is not None else "nothing"}`')
+            if not (isinstance(gen.elt, ast.Name) and gen_targets and gen.elt.id == gen_targets[0]):
+                problems.append(f'the generator yields `{norm(gen.elt)}`, not the label of its iteration')
+        (ctx.bad if problems else ctx.ok)(R, f, gen, '; '.join(problems) or 'generator and loop walk the same snapshot with the same placeholder test', key=key + ':agreement')
